@@ -28,9 +28,9 @@ D_GROUPS = {
     "d_nest4": ("MC_Yata", "D_nest4.cfg"),
 }
 TIERS = {
-    "quick": {"design": ["d_seq", "d_map", "d_nest"], "gen": ["seq3", "map3", "nesta3", "nestm3", "alg3", "algm3"], "random": 3},
+    "quick": {"design": ["d_seq", "d_map", "d_nest"], "gen": ["seq3", "map3", "nesta3", "nestm3", "alg3", "algm3", "script:gapdel", "script:gapdep", "script:gappar", "script:gapkey"], "random": 3},
     "thorough": {"design": ["d_seq", "d_map", "d_nest", "d_seq4", "d_map4", "d_nest4"],
-                 "gen": ["seq3", "map3", "nesta3", "nestm3", "alg3", "algm3", "seq4", "map4"], "random": 30},
+                 "gen": ["seq3", "map3", "nesta3", "nestm3", "alg3", "algm3", "script:gapdel", "script:gapdep", "script:gappar", "script:gapkey", "seq4", "map4"], "random": 30},
 }
 
 
@@ -84,6 +84,36 @@ def _cache_path(*parts):
     return os.path.join(cdir, "-".join(str(p) for p in parts) + ".json")
 
 
+SCRIPT_SAMPLE = {"quick": 120, "thorough": 2500}
+
+
+def gen_script_family(fam, tier, workdir):
+    """G stage for a scripted family (tools/gen_scripts.py): one TLC run per script (in parallel); TLC enumerates the
+    exchanges among authors and every (merged) delivery order; a seeded sample per script is kept."""
+    from concurrent.futures import ThreadPoolExecutor
+    seed = vlib.seed()
+    with open(os.path.join(vlib.SPEC, "scripts_index.json")) as f:
+        cfgs = json.load(f)[fam]
+
+    def one(cfg):
+        g = vlib.generate("MC_YataScript", cfg, os.path.join(workdir, "script-" + cfg[:-4], "g"), workers=2, heap="2g", timeout=900)
+        h = g["replay"]
+        h.sort(key=lambda x: json.dumps(x, sort_keys=True))
+        n = SCRIPT_SAMPLE[tier]
+        total = len(h)
+        if len(h) > n:
+            h = random.Random(_h(seed, cfg)).sample(h, n)
+        return h, {"distinct": g["distinct"], "generated": g["generated"], "depth": g["depth"], "wall": g["wall"], "replay": total}
+
+    with ThreadPoolExecutor(max_workers=6) as ex:
+        res = list(ex.map(one, cfgs))
+    hists = [h for r in res for h in r[0]]
+    stats = {"distinct": sum(r[1]["distinct"] for r in res), "generated": sum(r[1]["generated"] for r in res),
+             "depth": max(r[1]["depth"] for r in res), "wall": sum(r[1]["wall"] for r in res), "replay": sum(r[1]["replay"] for r in res),
+             "scripts": len(cfgs)}
+    return hists, stats
+
+
 def gen_hists(gname, tier, workdir):
     """G stage for one generator group: TLC-enumerated histories (filtered / sampled as configured).
     Returns (histories, stats); cached by tree hash."""
@@ -93,6 +123,11 @@ def gen_hists(gname, tier, workdir):
         with open(cpath) as f:
             d = json.load(f)
         return d["hists"], d["stats"]
+    if gname.startswith("script:"):
+        hists, stats = gen_script_family(gname[7:], tier, workdir)
+        with open(cpath, "w") as f:
+            json.dump({"hists": hists, "stats": stats}, f)
+        return hists, stats
     module, cfg, opts = G_GROUPS[gname]
     g = vlib.generate(module, cfg, os.path.join(workdir, gname, "g"))
     hists = g["replay"]
@@ -232,13 +267,17 @@ def run_all(tier, workdir):
     """All generator groups and the seeded random runs of the tier: G per group, then ONE X run per kind and ONE V run
     over the concatenated trace (saves the per-run JVM overhead). Cached by tree hash."""
     seed = vlib.seed()
-    cpath = _cache_path(vlib.tree_hash(), "yata", "all", tier, seed)
+    cpath = _cache_path(vlib.tree_hash(), "yata", "all" + os.environ.get("VERIF_ONLY_GROUPS", ""), tier, seed)
     if os.path.exists(cpath):
         with open(cpath) as f:
             r = json.load(f)
         r["cached"] = True
         return r
-    plan = TIERS[tier]
+    plan = dict(TIERS[tier])
+    only = os.environ.get("VERIF_ONLY_GROUPS")  # development aid (mutant triage): restrict to some groups, no random runs
+    if only:
+        plan["gen"] = [g for g in only.split(",") if g]
+        plan["random"] = 0
     t0 = time.time()
     wd = os.path.join(workdir, "yata-all")
     shutil.rmtree(wd, ignore_errors=True)
@@ -315,12 +354,12 @@ def check(prop, tier):
     bt = vlib.build_harness("yx")
     wd = os.path.join(vlib.WORK, "run-%s" % prop)
     plan = TIERS[tier]
-    for d in plan["design"]:
+    for d in ([] if os.environ.get("VERIF_ONLY_GROUPS") else plan["design"]):
         r = run_design(d, tier, wd)
         ev.add_tlc(D_GROUPS[d][1], r, "design")
     r = run_all(tier, wd)
     for g in r["gstats"]:
-        ev.add_tlc(G_GROUPS[g["group"]][1], {"distinct": g["distinct"], "generated": g["generated"], "depth": g["depth"],
+        ev.add_tlc(G_GROUPS[g["group"]][1] if g["group"] in G_GROUPS else g["group"], {"distinct": g["distinct"], "generated": g["generated"], "depth": g["depth"],
                                               "wall": g["wall"], "replay": [0] * g["replay"]}, "G")
     ev.add_v("all groups + %d random behaviours" % r["random_behaviours"], r["merged"], r["nontrivial"], r["v_wall"])
     for s in r["samples"]:
